@@ -255,7 +255,8 @@ class Module(object):
         for name, (w, size, _) in self.mems.items():
             aw = max(1, (size - 1).bit_length())
             if name in self.rom_init:
-                arr = z3.K(z3.BitVecSort(aw), z3.BitVecVal(0, w))
+                # words the initial block does not assign are x in Verilog: an arbitrary (unconstrained) value here
+                arr = z3.Array('uninit_%s' % name, z3.BitVecSort(aw), z3.BitVecSort(w))
                 for k, val in self.rom_init[name].items():
                     arr = z3.Store(arr, z3.BitVecVal(k, aw), z3.BitVecVal(val, w))
                 out[name] = arr
